@@ -60,7 +60,26 @@ pub fn run(thorough: bool) -> Vec<Part> {
     if small_build() {
         let mut part = Part::new("C03", "robust-alphabet-s", "exploration");
         part.assume("S-build: the connection state machine under every read schedule over the piece alphabet, continuing after ParseError, StreamReadError (EAGAIN/EINTR) and ConnectionClosed (EOF followed by more data); oracles: no panic (overflow checks on), at most one receive per try_read and one write per try_write, output is a sequence of well-formed responses; a watchdog turns a hang into a finding");
-        let mut cfg = Cfg::base("C03", "robust-alphabet", alphabet::small(if thorough { 1 } else { 0 }), 40);
+        let mut pieces = alphabet::small(if thorough { 1 } else { 0 });
+        {
+            // header / request lines longer than the buffer that contain invalid UTF-8 at
+            // various positions (error paths that render the offending bytes)
+            let b = connx::buffer_size();
+            let mk = |prefix: &[u8], bad_from: usize, bad_to: usize, total: usize| -> Vec<u8> {
+                let mut v = prefix.to_vec();
+                while v.len() < total - 2 {
+                    let i = v.len();
+                    v.push(if i >= bad_from && i < bad_to { 0xff } else { b'a' });
+                }
+                v.extend_from_slice(b"\r\n");
+                v
+            };
+            pieces.push(connx::piece("h_long_bad_tail", connx::Class::Header, &mk(b"X-a: ", b - 2, b, b + 4)));
+            pieces.push(connx::piece("h_long_bad_tail1", connx::Class::Header, &mk(b"X-a: ", b - 1, b, b + 4)));
+            pieces.push(connx::piece("h_long_bad_all", connx::Class::Header, &mk(b"X-a: ", 5, b + 2, b + 4)));
+            pieces.push(connx::piece("rl_long_bad_tail", connx::Class::ReqLine, &mk(b"GET /", b - 2, b, b + 4)));
+        }
+        let mut cfg = Cfg::base("C03", "robust-alphabet", pieces, 40);
         cfg.robust_only = true;
         cfg.eof = true;
         cfg.empty_reads = true;
@@ -134,8 +153,40 @@ pub fn run(thorough: bool) -> Vec<Part> {
         |blk| format!("all strings starting with symbols #{} #{} #{}", blk % K, blk / K % K, blk / K / K % K),
     );
     t.record(&mut part, "entry-point-strings");
+    // numeric and length edge values through every entry point (values, header lines, blocks, requests)
+    {
+        let vals: Vec<String> = vec![
+            "4294967295", "4294967296", "4294967297", "9999999999", "10000000000", "18446744073709551615", "18446744073709551616",
+            "99999999999999999999999999999999", "00000000000000000000004294967296", "0000000000", "-0", "-1", "+0", "+4294967296", " 4294967296 ", "1e3", "0x10", "",
+        ].into_iter().map(|s| s.to_string()).collect();
+        let names = ["Content-Length", "content-length", "Expect", "Accept", "Content-Type", "Transfer-Encoding", "Accept-Encoding", "Server", "X-n"];
+        let mut t = crate::par::Tally::default();
+        for v in &vals {
+            for n in names {
+                let line = format!("{}: {}", n, v);
+                entry_points(line.as_bytes(), &mut t, "edge value as header line");
+                entry_points(format!("{}\r\n\r\n", line).as_bytes(), &mut t, "edge value as header block");
+                entry_points(format!("PUT /e HTTP/1.1\r\n{}\r\n\r\n", line).as_bytes(), &mut t, "edge value in a request");
+                entry_points(format!("PUT /e HTTP/1.1\r\nContent-Length: 1\r\n{}\r\n\r\nb", line).as_bytes(), &mut t, "edge value after a valid Content-Length");
+                t.nontrivial += 1;
+            }
+            entry_points(v.as_bytes(), &mut t, "edge value alone");
+        }
+        t.sample(json!({"edge_values": vals}));
+        t.record(&mut part, "numeric-edge-values");
+    }
     // large inputs through the connection (real buffer)
+    let mut bad_line = b"GET / HTTP/1.1\r\nX-a: ".to_vec();
+    while bad_line.len() < 16 + 1100 {
+        let i = bad_line.len() - 16;
+        bad_line.push(if i == 1022 || i == 1023 || i % 97 == 5 { 0xff } else { b'h' });
+    }
+    bad_line.extend_from_slice(b"\r\n\r\n");
+    let mut bad_line2 = b"GET / HTTP/1.1\r\n".to_vec();
+    bad_line2.extend(std::iter::repeat(0xf0u8).take(1500));
     let big: Vec<(&str, Vec<u8>, usize)> = vec![
+        ("header line longer than the buffer with invalid UTF-8 near offset 1023", bad_line, 51200),
+        ("header line of 1500 bytes 0xF0", bad_line2, 51200),
         ("60 KiB without CRLF", vec![b'x'; 60 * 1024], 51200),
         ("60 KiB body", {
             let mut v = b"PUT /b HTTP/1.1\r\nContent-Length: 61440\r\n\r\n".to_vec();
@@ -176,7 +227,7 @@ pub fn run(thorough: bool) -> Vec<Part> {
             cfg.empty_reads = false;
             let len = s.len();
             let mut scheds: Vec<Vec<usize>> = vec![vec![len], vec![1000; len / 1000 + 1], vec![7; (len / 7 + 1).min(20000)]];
-            for c in [1usize, 2, 1023, 1024, 1025, 2048, len / 2, len - 1] {
+            for c in [1usize, 2, 15, 16, 17, 1023, 1024, 1025, 1038, 1039, 1040, 1041, 2048, len / 2, len - 1] {
                 if c > 0 && c < len {
                     scheds.push(vec![c, len - c]);
                 }
